@@ -4,39 +4,39 @@ From PNC Require Import Base.Util Model.Handles Model.Alias Proofs.HandlesProofs
 
 (* ================= closing / garbage-collecting is local ========================================== *)
 
-(* The repaired discipline (close only while this object is open), at full strength: after ANY sequence of
-   opens and closes (explicit closes and finalisers, any order, any number of times per object), every object that
-   received no close event reads its own file. *)
-Theorem C05_close_local_spec : forall h o ob,
-  nth_error (objs (spec_run h)) o = Some ob -> ~ In (Close o) h ->
-  read (spec_run h) o = Some (o_file ob).
-Proof. exact close_local_spec. Qed.
-Print Assumptions C05_close_local_spec.
+(* The code since fix C05-close-isopen-guard (netcdf.close returns at once unless isopen(); __del__ calls close), at
+   FULL strength: after ANY sequence of opens and closes (explicit closes and finalisers, any order, any number of times
+   per object), every object that received no close event reads its own file.  (Before the repair this was false:
+   witnesses in corpus/C05/.) *)
+Theorem C05_close_local : forall h o ob,
+  nth_error (objs (impl_run h)) o = Some ob -> ~ In (Close o) h ->
+  read (impl_run h) o = Some (o_file ob).
+Proof. exact close_local. Qed.
+Print Assumptions C05_close_local.
 
-(* The code as it is (netcdf.close / __del__ call nc_close on the remembered id unconditionally): FALSE.
-   A = netcdf(a); A.close(); B = netcdf(b); finaliser of A  ->  B is invalid ... *)
-Theorem C05_close_local_refuted : exists h o ob,
-  nth_error (objs (impl_run h)) o = Some ob /\ ~ In (Close o) h /\ read (impl_run h) o = None.
-Proof. exact close_local_refuted. Qed.
-Print Assumptions C05_close_local_refuted.
+(* one more close / finaliser of ANY object leaves what every other open object reads untouched *)
+Theorem C05_close_is_local_step : forall h o o' ob',
+  o <> o' -> nth_error (objs (impl_run h)) o' = Some ob' -> o_open ob' = true ->
+  read (impl_step (impl_run h) (Close o)) o' = read (impl_run h) o'.
+Proof. exact close_is_local. Qed.
+Print Assumptions C05_close_is_local_step.
 
-(* ... and after one more open, B silently returns the data of another file. *)
-Theorem C05_close_wrong_data_refuted : exists h o ob f,
-  nth_error (objs (impl_run h)) o = Some ob /\ ~ In (Close o) h
-  /\ read (impl_run h) o = Some f /\ f <> o_file ob.
-Proof. exact wrong_data_refuted. Qed.
-Print Assumptions C05_close_wrong_data_refuted.
+(* "any number of times": a second close of the same object is a no-op, in every state *)
+Theorem C05_close_idempotent : forall st o,
+  impl_step (impl_step st (Close o)) (Close o) = impl_step st (Close o).
+Proof. exact close_idempotent. Qed.
+Print Assumptions C05_close_idempotent.
 
-(* PARTIAL: on the histories in which every close event hits an object that is still open or whose slot is free at
-   that moment (`safe`, boolean, region 0 of the correspondence), the code coincides with the repaired discipline and
-   the property holds.  Missing: histories with a close/finaliser of an already closed object after its slot was
-   re-used by a later open (refuted above). *)
-Theorem C05_close_local_partial : forall h o ob,
-  safe h = true ->
-  impl_run h = spec_run h
-  /\ (nth_error (objs (impl_run h)) o = Some ob -> ~ In (Close o) h -> read (impl_run h) o = Some (o_file ob)).
-Proof. exact close_local_partial. Qed.
-Print Assumptions C05_close_local_partial.
+(* ownership invariant of every reachable state: an open object's slot holds its own file, and no two open
+   objects share a slot (so a recycled id can never be closed through a stale object) *)
+Theorem C05_slot_ownership : forall h,
+  (forall o ob, nth_error (objs (impl_run h)) o = Some ob -> o_open ob = true ->
+                lookup (o_ncid ob) (tbl (impl_run h)) = Some (o_file ob))
+  /\ (forall o1 o2 ob1 ob2, o1 <> o2 -> nth_error (objs (impl_run h)) o1 = Some ob1 ->
+        nth_error (objs (impl_run h)) o2 = Some ob2 -> o_open ob1 = true -> o_open ob2 = true ->
+        o_ncid ob1 <> o_ncid ob2).
+Proof. exact ownership. Qed.
+Print Assumptions C05_slot_ownership.
 
 (* ================= inputs are never modified, results never alias ================================= *)
 
@@ -60,9 +60,8 @@ Proof. exact isolation_spec. Qed.
 Print Assumptions C05_isolation_spec.
 
 (* PARTIAL: the catalogue of the code's effects (impl_effs): every operation / query with `isolated o = true`
-   (all Clean ones; getTimes without the -635 sentinel or on disk-backed files; val2idx(bounds) with a bounds variable,
-   non-uniform spacing, an integer coordinate or a disk-backed file).  Missing: eval('B = A'), eval of a view,
-   getvarpnc coordinates, slice_dim, getTimes with -635 in TFLAG, val2idx(bounds) on a uniform float coordinate. *)
+   (all Clean transformations and all queries).  Missing: eval('B = A'), eval of a view, getvarpnc coordinates,
+   slice_dim (their outputs share buffers with the input; refuted below). *)
 Theorem C05_isolation_partial : forall (o : op), isolated o = true ->
   forall A (outs : list (list A)) junk (h h' : heap A) out ws,
   run_actions A h (actions_of (impl_effs o) outs junk) = (h', out) ->
@@ -81,21 +80,22 @@ Theorem C05_result_alias_refuted : exists (o : op) (h h' : heap nat) out ws i,
 Proof. exact alias_refuted. Qed.
 Print Assumptions C05_result_alias_refuted.
 
-(* val2idx(method='bounds'): the query itself rewrites the coordinate variable *)
-Theorem C05_query_mutates_refuted : exists (o : op) (h h' : heap nat) out i,
-  run_actions nat h (actions_of (impl_effs o) [] [5; 20; 30; 45]) = (h', out)
-  /\ i < length h /\ hread nat h' i <> hread nat h i.
-Proof. exact query_mutates_refuted. Qed.
-Print Assumptions C05_query_mutates_refuted.
+(* FULL strength for the queries (time decoding, value-to-index lookup, dump/repr, save) since the fixes
+   C05-getTimes-copy and the val2idx copies: they leave the heap exactly as it was and return no buffer. *)
+Theorem C05_queries_pure : forall (c : nat) A (junk : list A) (h : heap A),
+  isolated (Query c) = true
+  /\ run_actions A h (actions_of (impl_effs (Query c)) [] junk) = (h, []).
+Proof. exact queries_pure. Qed.
+Print Assumptions C05_queries_pure.
 
 (* Non-vacuity *)
-Example C05_safe_inhabited :
-  safe [Open 0; Open 1; Close 0; Close 0; Open 2; Close 2; Open 0; Close 1] = true
-  /\ reads (impl_run [Open 0; Open 1; Close 0; Close 0; Open 2; Close 2; Open 0; Close 1]) [0; 1; 2; 3]
-     = [Some 0; None; Some 0; Some 0].   (* closed objects 0 and 2 remember slot 1, now owned by object 3 *)
+Example C05_history_inhabited :
+  reads (impl_run [Open 0; Close 0; Open 1; Close 0; Open 2; Close 0; Open 0; Close 2]) [0; 1; 2; 3]
+  = [Some 1; Some 1; None; Some 0]   (* the closed object 0 still remembers slot 1, now owned by object 1; objects 1 and 3 are open and read their own files *)
+  /\ map o_ncid (objs (impl_run [Open 0; Close 0; Open 1; Close 0; Open 2; Close 0; Open 0; Close 2])) = [1; 1; 2; 3].
 Proof. vm_compute. split; reflexivity. Qed.
 
 Example C05_isolated_inhabited :
-  isolated (Clean 3) = true /\ isolated (Val2idxBounds true true true true 0) = true
-  /\ isolated (GetTimesTflag false true 0) = true /\ isolated (EvalName 1) = false.
+  isolated (Clean 3) = true /\ isolated (Query 7) = true /\ isolated (EvalName 1) = false
+  /\ isolated (Getvarpnc [0; 1]) = false /\ isolated (Getvarpnc []) = true.
 Proof. vm_compute. repeat split; reflexivity. Qed.
